@@ -4,7 +4,7 @@ from __future__ import annotations
 import struct
 
 import bitstring
-from bitstring import Bits, pack
+from bitstring import BitArray, BitStream, Bits, pack
 
 from rv import util
 from rv.model import codecs as K
@@ -296,6 +296,24 @@ def judge(ctx, case):
     key = key_of(flat, tree)
     nontrivial = len(flat) >= 2
     with util.options(lsb0=False):
+        if util.STR_HISTORY:
+            # the values of this case were used before: each one initialised (keyword and property route) a mutable object that was then changed in place
+            for t in flat:
+                if t['t'] == 'tok' and t.get('name') not in (None, 'pad') and 'val' in t:
+                    for mcls in (BitArray, BitStream):
+                        try:
+                            kw_ = {t['name']: pyval(t['name'], t['val'])}
+                            if t.get('n') is not None and K.canon(t['name']) not in ('bool',) + tuple(K.VARIABLE):
+                                kw_['length'] = t['n'] * (8 if K.canon(t['name']) == 'bytes' else 1)
+                            o_ = mcls(**kw_)
+                            o_.append('0b01')
+                            o_.invert()
+                            o2_ = mcls(max(len(o_) - 2, 0)) if 'length' in kw_ and K.canon(t['name']) not in ('bytes', 'hex', 'bin', 'oct', 'bits') else mcls()
+                            setattr(o2_, t['name'], pyval(t['name'], t['val']))
+                            o2_ += '0b1'
+                            o2_.invert()
+                        except Exception:  # noqa: BLE001 - not this prelude's business
+                            pass
         # ---- pack ---------------------------------------------------------------------------------------------
         r = Render(rng, True, case.get('ws', True))
         if case.get('fmt') is None:
